@@ -785,7 +785,7 @@ def isometry(num):
 
 def oracle_embed(ctx, volume=1):
     g = ctx.npgen(4)
-    nums = [1] if ctx.quick else [1, 2]
+    nums = [1] if (ctx.quick and volume == 1) else [1, 2]
     for num in nums:
         V = isometry(num)
         Q = np.eye(4 ** num) - V @ V.T
